@@ -19,6 +19,21 @@ theorem extract_count {t : Nat} {l rest : List (Nat × Val)} {v : Val} (h : extr
         simp [count_cons] at this ⊢; omega
       · cases h
 
+theorem erase_count {t : Nat} {l : List (Nat × Val)} {v : Val} (h : (t, v) ∈ l) (x : Val) :
+    count x (l.map (·.2)) = count x ((l.erase (t, v)).map (·.2)) + count x [v] := by
+  induction l with
+  | nil => cases h
+  | cons a r ih =>
+    by_cases ha : a = (t, v)
+    · subst ha; simp [count_cons]
+    · have hm : (t, v) ∈ r := by
+        rcases mem_cons.mp h with h | h
+        · exact absurd h.symm ha
+        · exact h
+      have := ih hm
+      rw [erase_cons_tail (by simpa using ha)]
+      simp [count_cons] at this ⊢; omega
+
 theorem start_ok (fl cfg s t op) :
     ∃ δ, (δ = [] ∨ δ = op.vals) ∧ StepOk fl s (.fresh t op) (start fl cfg s t op).1 (start fl cfg s t op).2 δ := by
   cases op with
@@ -73,19 +88,19 @@ theorem microDet_ok {fl cfg s p s' p'} (hs : microDet fl cfg s p = some (s', p')
     simp only [microDet] at hs
     refine ⟨[], Or.inl rfl, ?_⟩
     split at hs
-    · rename_i w rest he
+    · rename_i he
       cases hs
       refine ⟨fun hi => hi.frame (by frame), by simp, ?_, ?_, ?_, ?_⟩
       · intro x; acct
       · intro x; acct
-      · intro x; have := extract_count he x; revert this; acct
+      · intro x; have := erase_count he x; revert this; acct
       · intro x; acct
     · split at hs
-      · rename_i w rest he
+      · rename_i he
         cases hs
         refine ⟨fun hi => hi.frame (by unfold St.lose; frame), ?_, ?_, ?_, ?_, ?_⟩
         · acct
-        · intro x; have := extract_count he x; revert this; acct
+        · intro x; have := erase_count he x; revert this; acct
         · intro x; acct
         · intro x; acct
         · intro x; acct
